@@ -92,12 +92,21 @@ def gen(rng: random.Random, *, cdda_ok: bool = True, pairs: bool = True) -> dict
         pnames = ascii_name_set(rng, nperf, pairs=False)
         for p in range(nperf):
             mine = list(range(ns)) if p == 0 else rng.sample(range(ns), rng.randint(1, ns))
-            pl = []
-            for i in range(0, len(mine), 4):
-                partials.append({"name": ascii_name(rng) or "pt", "samples": mine[i:i + 4]})
-                pl.append(len(partials) - 1)
-            patches.append({"name": rng.choice([ascii_name(rng), names[0], "Patch"]), "partials": pl})
-            perfs.append({"name": pnames[p], "patches": [len(patches) - 1]})
+            # one or two patches per performance, over disjoint samples: all of them are listed and exported into ONE directory,
+            # so names must be unique across the patches of a performance, not only within one
+            groups = [mine]
+            if len(mine) >= 2 and rng.random() < 0.45:
+                cut = rng.randint(1, len(mine) - 1)
+                groups = [mine[:cut], mine[cut:]]
+            my_patches = []
+            for grp in groups:
+                pl = []
+                for i in range(0, len(grp), 4):
+                    partials.append({"name": ascii_name(rng) or "pt", "samples": grp[i:i + 4]})
+                    pl.append(len(partials) - 1)
+                patches.append({"name": rng.choice([ascii_name(rng), names[0], "Patch"]), "partials": pl})
+                my_patches.append(len(patches) - 1)
+            perfs.append({"name": pnames[p], "patches": my_patches})
         nv = rng.randint(0, 2)
         vnames = ascii_name_set(rng, nv, pairs=False)
         vols = [{"name": vnames[v], "performances": rng.sample(range(nperf), rng.randint(1, nperf))} for v in range(nv)]
@@ -201,6 +210,12 @@ def execute(sc: dict, tag: str = "nm") -> Observation:
                     image.get_info().to_string()
                 except Exception:      # noqa: BLE001 - looking must not matter; whatever it does, the export below is judged
                     pass
+            if sc.get("ls_first"):
+                # the same opened image was listed (root and every first-level item) before it is exported: listing must not matter
+                r_ls = tool.run_ls(image, "")
+                for row in (tool.parse_ls_table(r_ls.stdout) or [])[:6]:
+                    if row and row[0].strip():
+                        tool.run_ls(image, row[0].strip())
             er = tool.run_export(image, sb)
             # anything written into the sandbox but outside dest (a '..' escape that stayed inside the sandbox)
             er.stray = sb.stray_files()
